@@ -15,7 +15,8 @@ field-by-field LAYOUT of each signed message).  Every emitted state is replayed 
   * a mutation is a single-bit flip inside the named field of the wire bytes / spent output / channel transaction.
 
 Old-release signatures: the transactions recorded in tests/unit/wallet/test_schema_signing.py are read as data (ast).
-A last leg drives the wallet's own builders (Transaction.create / claim_create / claim_update / support).
+A last leg drives the wallet's own builders (Transaction.pay / purchase / create / claim_create / claim_update / support).
+`./check C04 --replay <file>` evaluates the transaction stored in a violation's replay file again.
 """
 import ast
 import hashlib
@@ -31,6 +32,14 @@ INVS = ['NewNothing', 'ClaimSignedFirst', 'TxSignedFirst', 'LateClaimStalesInput
 ACTIONS = ['SignClaimFirst', 'SignTx', 'SignClaimLate', 'Mutate', 'Resign']
 PHASES = ['new', 'csigned', 'txfirst', 'stale', 'signed', 'mutated', 'resigned']
 CHAN_ID_KEY = 'is_signed_by-accepts-other-channel-with-same-key'
+
+
+class ProductRaised(Exception):
+    """a signing call of the product raised where the specification has a Sign* step"""
+
+    def __init__(self, where, exc):
+        super().__init__(f'{where}: {type(exc).__name__}: {exc}')
+        self.where, self.exc = where, exc
 
 # =========================================================================== independent side: primitives
 
@@ -491,8 +500,19 @@ class Env:
         return self.loop.run(coro, limit=2_000_000)
 
     def sign_tx(self, tx):
-        with watchdog(60):
-            self.run(tx.sign(self.accounts, {'timelock': self.extra_key}))
+        try:
+            with watchdog(60):
+                self.run(tx.sign(self.accounts, {'timelock': self.extra_key}))
+        except Exception as e:  # pylint: disable=broad-except
+            raise ProductRaised('Transaction.sign', e)
+
+    @staticmethod
+    def sign_claim(txo, channel):
+        try:
+            with watchdog(20):
+                txo.sign(channel)
+        except Exception as e:  # pylint: disable=broad-except
+            raise ProductRaised('Output.sign', e)
 
 
 def wire_from_attributes(tx):
@@ -622,7 +642,7 @@ class Scenario:
 class Replayer:
     def __init__(self, ctx, env):
         self.ctx, self.env = ctx, env
-        self.stats = {'input_checks': 0, 'claim_checks_real': 0, 'claim_checks_independent': 0, 'resign_skipped_unparseable_claim': 0,
+        self.stats = {'largest_output_script': 0, 'input_checks': 0, 'claim_checks_real': 0, 'claim_checks_independent': 0, 'resign_skipped_unparseable_claim': 0,
                       'mutated_skipped_after_failed_signing': 0, 'real_validation_raised': {}, 'wire_equivalent_mutations': 0,
                       'first_failing_conjunct': {}}
 
@@ -698,6 +718,14 @@ class Replayer:
 
 
 def run_shape(rp, shape, cases, seed_tag):
+    try:
+        _run_shape(rp, shape, cases, seed_tag)
+    except ProductRaised as e:
+        rp.ctx.violation(f'product-raises:{e.where}:{type(e.exc).__name__}',
+                         f'shape {shape}: the specification signs here, the product raised {e}', {'shape': shape, 'pass': seed_tag})
+
+
+def _run_shape(rp, shape, cases, seed_tag):
     """replay every emitted state of one shape on real objects"""
     ctx, env = rp.ctx, rp.env
     by = {}
@@ -723,16 +751,15 @@ def run_shape(rp, shape, cases, seed_tag):
         ins = rp.input_verdicts(t, sc.prevs(), case['layouts'])
         ctx.count((shape, seed_tag, phase), nontrivial=phase != 'new')
         ok = rp.judge(case, f'{label0} phase={phase}', ins, claims_now(sc, raw),
-                      {'shape': shape, 'phase': phase, 'tx': raw.hex(), 'spent_outputs': sc.prevs(),
-                       'channel_tx': sc.chan_raw().hex() if sc.channel else None})
+                      replay_obj(case, raw, sc.prevs(), sc.chan_raw() if sc.channel else None, sc.cpos, sc.chan_pos))
+        rp.stats['largest_output_script'] = max([rp.stats['largest_output_script']] + [len(o['script']) for o in t['outs']])
         return raw, ok
 
     # ---- path A: claim first, then the inputs
     sc = Scenario(env, shape, random.Random(f'{ctx.seed}:{seed_tag}:{shape}'))
     observe(sc, 'new', False)
     if sc.cpos is not None:
-        with watchdog(20):
-            sc.claim_txo.sign(sc.channel)
+        env.sign_claim(sc.claim_txo, sc.channel)
         observe(sc, 'csigned', False)
     env.sign_tx(sc.tx)
     signed_raw, signed_ok = observe(sc, 'signed', True)
@@ -744,8 +771,7 @@ def run_shape(rp, shape, cases, seed_tag):
         sb = Scenario(env, shape, random.Random(f'{ctx.seed}:{seed_tag}:B:{shape}'))
         env.sign_tx(sb.tx)
         observe(sb, 'txfirst', True)
-        with watchdog(20):
-            sb.claim_txo.sign(sb.channel)
+        env.sign_claim(sb.claim_txo, sb.channel)
         observe(sb, 'stale', False)
         env.sign_tx(sb.tx)
         observe(sb, 'signed', True)
@@ -759,6 +785,35 @@ def run_shape(rp, shape, cases, seed_tag):
         rnd = random.Random(f'{ctx.seed}:{seed_tag}:{shape}:{c["f"]}:{c["j"]}')
         w = base.mutated(c['f'], c['j'], rnd, env)
         replay_mutated(rp, c, by.get(('resigned', c['f'], c['j'])), w, base, sc, f'{label0} mutate {c["f"]}[{c["j"]}]', shape, seed_tag)
+
+
+def replay_obj(case, raw, prevs, chan_raw, cpos, chan_pos, judge_inputs=True, **extra):
+    """everything `./check C04 --replay` needs to evaluate the case again"""
+    return dict(extra, case=case, tx=raw.hex(), spent_outputs=[{'amount': p['amount'], 'script': p['script'].hex()} for p in prevs],
+                channel_tx=chan_raw.hex() if chan_raw else None, claim_output=cpos, channel_output=chan_pos, judge_inputs=judge_inputs)
+
+
+def replay_one(ctx):
+    """./check C04 --replay <file>: evaluate the recorded transaction again (independent verifier + real is_signed_by)"""
+    import json
+    with open(ctx.replay) as f:
+        r = json.load(f)['replay']
+    if not isinstance(r, dict) or 'tx' not in r:
+        raise MachineryError('this replay file does not hold a transaction (model-level or signing-refusal finding)')
+    rp = Replayer(ctx, Env(ctx))
+    case, raw = r['case'], bytes.fromhex(r['tx'])
+    t = parse_tx(raw)
+    prevs = [{'amount': p['amount'], 'script': bytes.fromhex(p['script'])} for p in r['spent_outputs']]
+    ins = rp.input_verdicts(t, prevs, case['layouts']) if r['judge_inputs'] and case['ck'] != 'legacy' else []
+    claims = {}
+    if r['channel_tx'] is not None:
+        craw = bytes.fromhex(r['channel_tx'])
+        claims = {'real-wire': rp.real_claim_verdict_wire(raw, r['claim_output'], craw, r['channel_output']),
+                  'independent': check_claim(t, r['claim_output'], craw, r['channel_output'], case['clayout'])}
+    ctx.count(('replay', r['tx'][:32]))
+    print(f'replay: phase={case["phase"]} mutation={case["f"]}[{case["j"]}] inputs observed={[v for v in ins]} expected={case["ins"]}; '
+          f'claim observed={claims} expected={case["claim"]}', flush=True)
+    rp.judge(case, 'replay', ins, claims, r, judge_inputs=r['judge_inputs'])
 
 
 class Wire:
@@ -908,9 +963,7 @@ def replay_mutated(rp, case, resigned_case, w, base, sc, label, shape, seed_tag)
                 rp.stats['wire_equivalent_mutations'] += 1     # same content in another encoding: not a change of the claim
                 claims.pop('real-wire')
                 claims.pop('independent')
-    replay = {'shape': shape, 'mutation': [case['f'], case['j']], 'tx': raw.hex(), 'spent_outputs': w.prevs,
-              'channel_tx': w.chan_raw.hex() if w.chan_raw else None, 'claim_output': w.cpos, 'channel_output': w.chan_pos,
-              'signed_tx_before_mutation': ser_tx(base.t).hex()}
+    replay = replay_obj(case, raw, w.prevs, w.chan_raw, w.cpos, w.chan_pos, signed_tx_before_mutation=ser_tx(base.t).hex())
     ctx.count((shape, seed_tag, case['f'], case['j']), nontrivial=True)
     # the input side of a mutated state involves no product code after signing: a mismatch there is the harness's fault
     for i, (e, (ok, why)) in enumerate(zip(case['ins'], ins)):
@@ -935,8 +988,8 @@ def replay_mutated(rp, case, resigned_case, w, base, sc, label, shape, seed_tag)
                    'real-wire': rp.real_claim_verdict_wire(raw2, w.cpos, w.chan_raw, w.chan_pos),
                    'independent': check_claim(t2, w.cpos, w.chan_raw, w.chan_pos, resigned_case['clayout'])}
     ctx.count((shape, seed_tag, 're', case['f'], case['j']), nontrivial=True)
-    replay2 = dict(replay, tx_signed_again=raw2.hex())
-    rp.judge(resigned_case, label + ' then sign again', ins2, claims2, replay2)
+    rp.judge(resigned_case, label + ' then sign again', ins2, claims2,
+             replay_obj(resigned_case, raw2, w.prevs, w.chan_raw, w.cpos, w.chan_pos, mutated_tx_before_signing_again=raw.hex()))
 
 
 def wire_equivalent(raw_a, cpos_a, raw_b, cpos_b):
@@ -974,8 +1027,7 @@ def resign(env, w, sc):
             txo.signable.to_message_bytes()
         except Exception:  # pylint: disable=broad-except
             return None                                     # the flipped bit made the payload undecodable: nothing to sign
-        with watchdog(20):
-            txo.sign(channel)
+        env.sign_claim(txo, channel)
     env.sign_tx(tx)
     return tx.raw, txo, channel
 
@@ -1045,7 +1097,7 @@ def leg_recorded(rp, cases):
                 continue
             ctx.count(('recorded', name, c['phase'], c['f'], c['j']), nontrivial=True)
             label = f'recorded claim {name} ({form}) ' + ('as recorded' if c['phase'] == 'signed' else f'mutate {c["f"]}[{c["j"]}]')
-            replay = {'recorded': name, 'mutation': [c['f'], c['j']], 'tx': raw.hex(), 'channel_tx': w.chan_raw.hex()}
+            replay = replay_obj(c, raw, [], w.chan_raw, 0, 0, judge_inputs=False, recorded=name)
             if c['phase'] == 'signed' and not claims['real-wire'][0]:
                 ctx.violation(f'old-release-signature-rejected:{form}', f'{label}: is_signed_by = False ({claims["real-wire"][1]})', replay)
                 claims.pop('real-wire')
@@ -1058,79 +1110,93 @@ def leg_recorded(rp, cases):
 # =========================================================================== the wallet's own builders
 
 def leg_builders(rp, cases):
-    """Transaction.create (change added, explicit over-funding inputs), claim_create / claim_update / support with a signing
-    channel followed by the daemon's sign sequence; every result is judged like a `signed` state"""
+    """the wallet's own builders: Transaction.pay / purchase / create (explicit inputs, change added) and claim_create /
+    claim_update / support with a signing channel followed by the daemon's sequence (sign the claim against the real
+    first input, then sign the inputs); every result is judged like a `signed` state of the specification"""
     from lbry.wallet import Transaction, Input, Output
     from lbry.wallet.hash import TXRefImmutable
     from lbry.schema.claim import Claim
     ctx, env = rp.ctx, rp.env
-    signed_cases = {}
-    for c in cases:
-        if c['phase'] == 'signed' and set(c['kinds']) == {'pkh'}:
-            signed_cases.setdefault((c['nin'], c['nout']), c)
     lay_in = {}
     for c in cases:                                  # input layouts by (number of inputs, number of outputs)
-        if c['ck'] != 'legacy' and set(c['kinds']) <= {'pkh', 'claimpkh'}:
-            lay_in.setdefault((len(c['layouts']), len(c['layouts'][0]) - 5 - 4 * len(c['layouts'])), c['layouts'])
+        if c['ck'] != 'legacy' and c['f'] == 'none' and 'timelock' not in c['kinds']:
+            lay_in.setdefault((c['nin'], c['nout']), c['layouts'])
     clayout = [c for c in cases if c['ck'] == 'v2'][0]['clayout']
-    n = 60 if ctx.thorough else 24
-    acc = env.accounts[0]
-    done = 0
+    n = 90 if ctx.thorough else 30
+    flows = ['pay', 'create', 'claim', 'update', 'support', 'purchase']
+    done = {f: 0 for f in flows}
+    failed = {}
+
+    def fund(acc, amount, rnd):
+        """one confirmed spendable output of `acc` in the wallet database (as the sync code would have stored it)"""
+        pkh = env.ledger.address_to_hash160(rnd.choice(env.run(acc.receiving.get_addresses())))
+        utxo = Output.pay_pubkey_hash(amount, pkh)
+        src = Output.pay_pubkey_hash(amount + 1000, rnd.randbytes(20))
+        src.tx_ref = TXRefImmutable.from_hash(rnd.randbytes(32), 5)
+        src.position = 0
+        ftx = Transaction(is_verified=True, height=5).add_inputs([Input.spend(src)]).add_outputs([utxo])
+        env.run(env.ledger.db.insert_transaction(ftx))
+        env.run(env.ledger.db.save_transaction_io(ftx, env.ledger.hash160_to_address(pkh), pkh, ''))
+
     for k in range(n):
         rnd = random.Random(f'{ctx.seed}:builders:{k}')
-        nin = rnd.choice([1, 2, 3])
-        utxos = []
-        for _ in range(nin):
-            u = Output.pay_pubkey_hash(rnd.choice([150000000, 200000000, 990000000]), rnd.choice(env.pkhs))
-            u.tx_ref = TXRefImmutable.from_hash(rnd.randbytes(32), 5)
-            u.position = rnd.choice(NOUTS[:6])
-            utxos.append(u)
-        inputs = [Input.spend(u) for u in utxos]
-        flow = rnd.choice(['pay', 'pay2', 'claim', 'update', 'support'])
-        channel = None
+        flow = flows[k % len(flows)]
+        acc = env.accounts[k % 2]
         holding = env.ledger.hash160_to_address(rnd.choice(env.pkhs))
+        channel = None
         if flow in ('claim', 'update', 'support'):
-            s0 = Scenario(env, (1, 1, ['pkh'], 'v2', 1), rnd)
-            channel = s0.channel
-        with watchdog(60):
+            channel = Scenario(env, (1, 1, ['pkh'], 'v2', 1), rnd).channel
+        claim = Claim()
+        claim.stream.title = rnd_text(rnd, 12)
+        claim.stream.source.sd_hash = rnd.randbytes(48).hex()
+        def build():
             if flow == 'pay':
-                outs = [Output.pay_pubkey_hash(50000000, rnd.randbytes(20))]
-                tx = env.run(Transaction.create(inputs, outs, [acc], acc))
-            elif flow == 'pay2':
-                outs = [Output.pay_pubkey_hash(30000000, rnd.randbytes(20)), Output.pay_script_hash(20000000, rnd.randbytes(20))]
-                tx = env.run(Transaction.create(inputs, outs, env.accounts, acc))
-            else:
-                claim = Claim()
-                claim.stream.title = rnd_text(rnd, 12)
-                claim.stream.source.sd_hash = rnd.randbytes(48).hex()
-                if flow == 'claim':
-                    out = Output.pay_claim_name_pubkey_hash(10000000, rnd_text(rnd, 6).replace(' ', '-'), claim,
-                                                            env.ledger.address_to_hash160(holding))
-                    out.sign(channel, b'placeholder txid:nout')
-                    tx = env.run(Transaction.create(inputs, [out], [acc], acc, sign=False))
-                elif flow == 'update':
-                    old = Output.pay_claim_name_pubkey_hash(10000000, 'old-name', Claim(), rnd.choice(env.pkhs))
-                    old.tx_ref = TXRefImmutable.from_hash(rnd.randbytes(32), 5)
-                    old.position = 0
-                    tx = env.run(Transaction.claim_update(old, claim, 10000000, holding, [acc], acc, channel))
-                    tx.add_inputs(inputs)            # fund it (the wallet has no spendable rows in this leg)
-                    utxos = [old] + utxos
-                else:
-                    out = Output.pay_support_data_pubkey_hash(10000000, 'supported', rnd.randbytes(20).hex(),
-                                                              __import__('lbry.schema.support', fromlist=['Support']).Support(),
-                                                              env.ledger.address_to_hash160(holding))
-                    out.support.comment = rnd_text(rnd, 9)
-                    out.sign(channel, b'placeholder txid:nout')
-                    tx = env.run(Transaction.create(inputs, [out], [acc], acc, sign=False))
-                # the daemon's sequence: sign the claim against the real first input, then the inputs
-                tx.outputs[0].sign(channel)
+                fund(acc, rnd.choice([200000000, 990000000]), rnd)
+                return env.run(Transaction.pay(rnd.choice([1000000, 50000000]), holding, [acc], acc))
+            if flow == 'purchase':
+                fund(acc, 300000000, rnd)
+                return env.run(Transaction.purchase(rnd.randbytes(20).hex(), 25000000, holding, [acc], acc))
+            if flow == 'create':
+                utxos = []
+                for _ in range(rnd.choice([1, 2, 3])):
+                    u = Output.pay_pubkey_hash(rnd.choice([150000000, 200000000]), rnd.choice(env.pkhs))
+                    u.tx_ref = TXRefImmutable.from_hash(rnd.randbytes(32), 5)
+                    u.position = rnd.choice(NOUTS[:6])
+                    utxos.append(u)
+                outs = [Output.pay_pubkey_hash(30000000, rnd.randbytes(20))]
+                if rnd.random() < 0.5:
+                    outs.append(Output.pay_script_hash(20000000, rnd.randbytes(20)))
+                return env.run(Transaction.create([Input.spend(u) for u in utxos], outs, env.accounts, acc))
+            if flow == 'claim':
+                fund(acc, 400000000, rnd)
+                return env.run(Transaction.claim_create(rnd_text(rnd, 6).replace(' ', '-'), claim, 10000000, holding, [acc], acc, channel))
+            if flow == 'update':
+                old = Output.pay_claim_name_pubkey_hash(100000000, 'old-name', Claim(), rnd.choice(env.pkhs))
+                old.tx_ref = TXRefImmutable.from_hash(rnd.randbytes(32), 5)
+                old.position = rnd.choice([0, 1])
+                return env.run(Transaction.claim_update(old, claim, 10000000, holding, [acc], acc, channel))
+            fund(acc, 400000000, rnd)
+            return env.run(Transaction.support('supported', rnd.randbytes(20).hex(), 10000000, holding, [acc], acc, channel,
+                                               rnd_text(rnd, 9)))
+        try:
+            with watchdog(60):
+                tx = build()
+        except Exception as e:  # pylint: disable=broad-except
+            failed[flow] = f'{type(e).__name__}: {e}'      # funding / coin selection is C03's subject, not judged here
+            continue
+        if channel is not None:                            # the daemon's sequence (jsonrpc_stream_create / _update / support_create)
+            try:
+                env.sign_claim(tx.outputs[0], channel)
                 env.sign_tx(tx)
+            except ProductRaised as e:
+                ctx.violation(f'product-raises:{e.where}:{type(e.exc).__name__}', f'wallet builder {flow} #{k}: {e}', {'flow': flow})
+                continue
         raw = tx.raw
         t = parse_tx(raw)
-        prevs = [{'amount': u.amount, 'script': u.script.source} for u in utxos]
+        prevs = [{'amount': i.txo_ref.txo.amount, 'script': i.txo_ref.txo.script.source} for i in tx.inputs]
         lays = lay_in.get((len(t['ins']), len(t['outs'])))
         if lays is None:
-            continue                                 # a shape beyond the specification's bound (e.g. four inputs)
+            continue                                 # a shape beyond the specification's bound
         ins = rp.input_verdicts(t, prevs, lays)
         claims = {}
         if channel is not None:
@@ -1139,15 +1205,61 @@ def leg_builders(rp, cases):
             claims = {'real-live': rp.real_claim_verdict(tx.outputs[0], channel),
                       'real-wire': rp.real_claim_verdict_wire(raw, 0, craw, channel.position),
                       'independent': check_claim(t, 0, craw, channel.position, clayout)}
-        case = {'ck': 'v2' if channel is not None else 'none', 'phase': 'signed', 'f': 'none', 'j': 0, 'kinds': ['pkh'] * len(t['ins']),
+        case = {'ck': 'v2' if channel is not None else 'none', 'phase': 'signed', 'f': flow, 'j': 0,
+                'kinds': ['claimpkh' if tail_of(p['script'])[2] > 3 else 'pkh' for p in prevs],
                 'ins': [True] * len(t['ins']), 'claim': 'valid' if channel is not None else 'na'}
         ctx.count(('builder', flow, k), nontrivial=True)
-        rp.judge(case, f'wallet builder flow={flow} #{k} ({len(t["ins"])} in, {len(t["outs"])} out)', ins, claims,
-                 {'flow': flow, 'tx': raw.hex(), 'spent_outputs': prevs})
-        done += 1
-    if done < n // 2:
-        raise MachineryError(f'only {done} of {n} builder transactions fell inside the specification bound')
-    ctx.leg('builders', transactions=done)
+        rp.judge(case, f'wallet builder {flow} #{k} ({len(t["ins"])} in, {len(t["outs"])} out)', ins, claims,
+                 replay_obj(dict(case, layouts=lays, clayout=clayout), raw, prevs, craw if channel is not None else None,
+                            0 if channel is not None else None, channel.position if channel is not None else None, flow=flow))
+        done[flow] += 1
+    if min(done.values()) == 0:
+        raise MachineryError(f'a builder flow produced no transaction inside the specification bound: {done} {failed}')
+    ctx.leg('builders', transactions=done, builder_refused=failed)
+
+
+def selftest_binding(rp, cases):
+    """the oracle really decides: a correct real transaction is accepted, every inverted expectation is flagged, and a
+    layout with two fields exchanged (not the specification's) no longer verifies"""
+    ctx, env = rp.ctx, rp.env
+
+    class Probe:
+        def __init__(self):
+            self.keys = []
+
+        def violation(self, key, what, replay_obj=None):
+            self.keys.append(key)
+            return True
+    shape = (2, 2, ('pkh', 'pkh'), 'v2', 1)
+    case = [c for c in cases if (c['nin'], c['nout'], tuple(c['kinds']), c['ck'], c['cpos']) == shape and c['phase'] == 'signed'][0]
+    sc = Scenario(env, shape, random.Random(f'{ctx.seed}:selftest'))
+    env.sign_claim(sc.claim_txo, sc.channel)
+    env.sign_tx(sc.tx)
+    raw = sc.tx.raw
+    t = parse_tx(raw)
+    probe = Probe()
+    shadow = Replayer(probe, env)
+
+    def flagged(c, lays=None):
+        probe.keys = []
+        ins = shadow.input_verdicts(t, sc.prevs(), lays or c['layouts'])
+        claims = {'real-wire': shadow.real_claim_verdict_wire(raw, sc.cpos, sc.chan_raw(), sc.chan_pos),
+                  'independent': check_claim(t, sc.cpos, sc.chan_raw(), sc.chan_pos, c['clayout'])}
+        shadow.judge(c, 'selftest', ins, claims, None)
+        return list(probe.keys)
+    res = {'correct_case_accepted': flagged(case) == [],
+           'inverted_input_expectation_flagged': flagged(dict(case, ins=[False, True])) != [],
+           'inverted_claim_expectation_flagged': flagged(dict(case, claim='invalid')) != []}
+    lay = [list(x) for x in case['layouts']]
+    a = [i for i, d in enumerate(lay[0]) if d['f'] == 'locktime'][0]
+    lay[0][a], lay[0][a + 1] = lay[0][a + 1], lay[0][a]
+    res['exchanged_layout_fields_rejected'] = any('does-not-verify' in k for k in flagged(case, lay))
+    cl = list(case['clayout'])
+    cl[0], cl[1] = cl[1], cl[0]
+    res['exchanged_digest_fields_rejected'] = flagged(dict(case, clayout=cl)) != []
+    if not all(res.values()):
+        raise MachineryError(f'binding self-test failed: {res}')
+    ctx.leg('selftest', **res)
 
 
 # =========================================================================== entry point
@@ -1157,6 +1269,9 @@ def run(ctx):
         import ecdsa  # noqa: F401  pylint: disable=unused-import
     except ImportError as e:
         raise MachineryError(f'pure-Python ecdsa package missing: {e}')
+    if ctx.replay:
+        replay_one(ctx)
+        return
     cases = leg_a(ctx)
     if cases is None:
         return
@@ -1172,8 +1287,11 @@ def run(ctx):
         for shape in sorted(shapes):
             run_shape(rp, shape, shapes[shape], p)
     leg_recorded(rp, cases)
-    if os.environ.get("C04_NOBUILDERS") != "1":
-        leg_builders(rp, cases)
+    leg_builders(rp, cases)
+    if not ctx.violations and not ctx.known_hit:
+        selftest_binding(rp, cases)          # needs a correctly signing product as its positive control
+    else:
+        ctx.leg('selftest', skipped='violations present: no positive control')
     ctx.cov['traces_validated_against_impl'] = len(cases) * passes
     ctx.cov['exhaustive'] = True
     ctx.leg('B', shapes=len(shapes), passes=passes, **rp.stats)
